@@ -24,9 +24,9 @@ type listParam struct {
 	stored         [][]string // elements that name stored data
 	opts           []string   // query options the handler reads (appended to the URL)
 	strict         bool       // the handler checks the list before it starts answering
-	// Lists outside [minItems, maxItems] (0 = no bound) are not generated: on the unchanged tree
-	// they are answered 500 from a recovered panic (defects reported in docs/notes/C20.md,
-	// Round 4; no fix or finding is registered for them yet, so the check would not be green).
+	// Lists outside [minItems, maxItems] (0 = no bound) are not generated.  No entry uses the bounds any more:
+	// the two defects they once hid (sparsevol-by-point with more than 3 items, subvolblocks without an
+	// offset: HTTP 500 from a recovered panic) are repaired in /repo (fixes C20-24, C20-25).
 	minItems, maxItems int
 }
 
@@ -45,11 +45,11 @@ var listParams = []listParam{
 	{prefix: "/lm/blocks/16_16_16/", sep: "_", arity: 3, stored: [][]string{{"0", "0", "0"}, {"16", "0", "0"}},
 		opts: []string{"", "compression=lz4", "throttle=on"}},
 	{prefix: "/lm/label/", sep: "_", arity: 3, stored: [][]string{{"1", "1", "1"}, {"17", "1", "1"}}, opts: []string{"", "supervoxels=true", "scale=0"}},
-	{prefix: "/lm/sparsevol-by-point/", sep: "_", arity: 3, stored: [][]string{{"1", "1", "1"}, {"17", "1", "1"}}, opts: []string{"", "supervoxels=true", "format=rles"}, maxItems: 3},
+	{prefix: "/lm/sparsevol-by-point/", sep: "_", arity: 3, stored: [][]string{{"1", "1", "1"}, {"17", "1", "1"}}, opts: []string{"", "supervoxels=true", "format=rles"}},
 	{prefix: "/lm/raw/0_1_2/16_16_16/0_0_0?roi=", sep: ",", arity: 1, stored: [][]string{{"roi"}}, opts: []string{"", "compression=lz4"}},
 	{prefix: "/img/raw/0_1_2/", suffix: "/0_0_0", sep: "_", arity: 3, stored: [][]string{{"16", "16", "16"}, {"32", "16", "16"}}, opts: []string{"", "throttle=on", "roi=roi"}},
 	{prefix: "/img/subvolblocks/", suffix: "/0_0_0", sep: "_", arity: 3, stored: [][]string{{"16", "16", "16"}, {"32", "16", "16"}}, opts: []string{"", "compression=uncompressed", "throttle=true"}},
-	{prefix: "/img/subvolblocks/16_16_16/", sep: "_", arity: 3, stored: [][]string{{"0", "0", "0"}, {"16", "0", "0"}}, opts: []string{"", "compression=jpeg"}, minItems: 1},
+	{prefix: "/img/subvolblocks/16_16_16/", sep: "_", arity: 3, stored: [][]string{{"0", "0", "0"}, {"16", "0", "0"}}, opts: []string{"", "compression=jpeg"}},
 	{prefix: "/img/blocks/0_0_0/", sep: "_", arity: 1, stored: [][]string{{"1"}, {"2"}}, opts: []string{""}},
 	{prefix: "/ann/elements/", suffix: "/0_0_0", sep: "_", arity: 3, stored: [][]string{{"10", "10", "10"}, {"64", "64", "64"}}, opts: []string{""}},
 	{prefix: "/ann/elements/10_10_10/", sep: "_", arity: 3, stored: [][]string{{"0", "0", "0"}, {"5", "5", "5"}}, opts: []string{""}},
